@@ -10,13 +10,16 @@ import (
 // ---------------------------------------------------------------------------
 
 type verifDeleter struct {
-	calls    int
-	failAt   int // 1-based index of the Delete call that fails (0: never)
-	failErr  error
-	missing  map[string]bool // keys answered with ErrNotFound
-	okCalls  map[string]int  // key -> number of nil answers
-	anyCalls map[string]int  // key -> number of calls
-	healthy  bool
+	// duringCall: runs inside the n-th Delete call (1-based) - stands for another goroutine that uses
+	// the index while this invalidation is between two deletes (the index lock is not held then)
+	duringCall func(n int)
+	calls      int
+	failAt     int // 1-based index of the Delete call that fails (0: never)
+	failErr    error
+	missing    map[string]bool // keys answered with ErrNotFound
+	okCalls    map[string]int  // key -> number of nil answers
+	anyCalls   map[string]int  // key -> number of calls
+	healthy    bool
 }
 
 func verifNewDeleter() *verifDeleter {
@@ -25,6 +28,9 @@ func verifNewDeleter() *verifDeleter {
 
 func (d *verifDeleter) Delete(ctx context.Context, key []byte) error {
 	d.calls++
+	if d.duringCall != nil {
+		d.duringCall(d.calls)
+	}
 	d.anyCalls[string(key)]++
 	if !d.healthy && d.failAt != 0 && d.calls == d.failAt {
 		return d.failErr
@@ -150,7 +156,7 @@ func verifC15(nKeys, nLabels int, twoDeleters bool) {
 	// the retry names all the labels again or only one of them: a key not yet deleted must still be
 	// indexed under EACH of its labels
 	retryArgs := args
-	if len(args) == 2 {
+	if len(args) == 2 && nKeys <= 3 { // the 4-key variants retry with the same labels (path budget)
 		switch verifChoice("retryWith", 3) {
 		case 1:
 			retryArgs = args[:1]
@@ -233,3 +239,52 @@ func verifC15Real(kind int) {
 func verifH_C15_RealShardedMap()   { verifC15Real(0) }
 func verifH_C15_RealSyncMap()      { verifC15Real(1) }
 func verifH_C15_RealShardedMapOf() { verifC15Real(2) }
+
+// Labels added while an invalidation is in flight: during the first Delete call of an InvalidateByLabels(L1)
+// one or two NEW keys are labelled with L1 (the index lock is free at that moment, so this is exactly what a
+// concurrent AddLabels does). Every key that carried L1 before the call is deleted by it; the new keys are
+// either deleted by this call or still indexed, so that a second call removes them; no key is deleted twice.
+func verifC15During(nOld int) {
+	idx := NewInvalidationIndex()
+	d := verifNewDeleter()
+	idx.AddCache("n1", d)
+	old := []string{"a", "b", "c"}[:nOld]
+	for _, k := range old {
+		idx.AddLabels("n1", []byte(k), "L1")
+	}
+	added := verifChoice("labelledDuringTheCall", 3) // 0, 1 or 2 new keys
+	at := 1 + verifChoice("duringDeleteCall", nOld)
+	newKeys := []string{"x", "y"}[:added]
+	d.duringCall = func(n int) {
+		if n == at {
+			for _, k := range newKeys {
+				idx.AddLabels("n1", []byte(k), "L1")
+			}
+		}
+	}
+	verifMapOrder(verifChoice("mapOrder", 2))
+	cnt, err := idx.InvalidateByLabels(context.Background(), "L1")
+	d.duringCall = nil
+	verifAssert("invalidate succeeds while labels are being added", err == nil)
+	for _, k := range old {
+		verifAssert("a key labelled before the call is deleted by it", d.okCalls[k] == 1 && d.anyCalls[k] == 1)
+	}
+	first := 0
+	for _, k := range newKeys {
+		first += d.okCalls[k]
+	}
+	verifAssert("count equals the entries removed by this call", cnt == nOld+first)
+	cnt2, err2 := idx.InvalidateByLabels(context.Background(), "L1")
+	verifReach("labels added during an invalidation")
+	verifAssert("second invalidate succeeds", err2 == nil)
+	for _, k := range newKeys {
+		verifAssert("a key labelled during the call is removed by it or by the next call, once", d.okCalls[k] == 1)
+	}
+	for _, k := range old {
+		verifAssert("no key is deleted twice", d.okCalls[k] == 1)
+	}
+	verifAssert("second count equals the entries it removed", cnt2 == added-first)
+}
+
+func verifH_C15_During2() { verifC15During(2) }
+func verifH_C15_During3() { verifC15During(3) }
